@@ -133,6 +133,9 @@ def run(chk, gate, status):
             # trace solutes (nanomoles and below) are below the rounding of the coarse storage units as well
             if g.stats.get('newc:trace:ok') or g.stats.get('newc:trace'):
                 continue
+            # exactly-on-boundary requests (decided by the last stored digit), nanolitre droplets and nanomolar stocks: not compared across storage units
+            if any(str(k).startswith(('boundary:', 'nanolitre:', 'nanomolar:')) for k in g.stats):
+                continue
             progs.append(g.prog()); kinds.append(name)
             taken += 1
             if taken >= (6 if quick else 30):
